@@ -1,13 +1,15 @@
 (* C19 — Texture path clean-up is canonical and idempotent.
    Only statements, each closed by [exact] of a lemma proved in Path/PathProofs.v, and their
    assumptions. [clean np terrain isrel p] is the model of the lambda fTrimPath of
-   NifFile::TrimTexturePaths (Path/PathModel.v); np = needs_prefix = not OB and not Special;
+   NifFile::TrimTexturePaths (Path/PathModel.v) as REPAIRED by fixes/C19-mixed-separators (any run of
+   separators becomes one backslash) and fixes/C19-terrain-restrip (terrain files: a leading Data\ in
+   front of textures\ is taken off before the search); np = needs_prefix = not OB and not Special;
    [isrel] stands for std::filesystem's is_relative. All statements are for ALL byte lists.
 
-   The full property is FALSE of the faithful model (and of the code): see the _refuted theorems.
-   What holds is stated with the exact side conditions:
-     mixed p = false      : p has no adjacent different separators ("/\" or "\/")
-     isrel hypothesis     : every path without '/' is relative (libstdc++ on POSIX; Example below) *)
+   For the prefixing games the property now holds without side conditions on the path. For OB /
+   Special it is FALSE of the faithful model (and of the code): see the _refuted theorems; what
+   holds there is stated with the exact side conditions.
+     isrel hypothesis : every path without '/' is relative (libstdc++ on POSIX; Example below) *)
 From NiflyVerif Require Import Res PathModel PathSpec PathProofs.
 Local Open Scope N_scope.
 
@@ -17,7 +19,7 @@ Theorem C19_clean_blank : forall (isrel : list N -> bool) np terrain p,
 Proof. exact clean_blank. Qed.
 Print Assumptions C19_clean_blank.
 
-(* structure of every result: every configuration, any is_relative *)
+(* structure of every result: every configuration, any is_relative, any path *)
 Theorem C19_clean_no_slash : forall np terrain isrel p, has_fs (clean np terrain isrel p) = false.
 Proof. exact clean_no_slash. Qed.
 Print Assumptions C19_clean_no_slash.
@@ -26,8 +28,7 @@ Theorem C19_clean_no_trailing_ws : forall np terrain isrel p, last_space (clean 
 Proof. exact clean_no_trailing_ws. Qed.
 Print Assumptions C19_clean_no_trailing_ws.
 
-Theorem C19_clean_single_bs : forall np terrain isrel p,
-  mixed p = false -> has_dbs (clean np terrain isrel p) = false.
+Theorem C19_clean_single_bs : forall np terrain isrel p, has_dbs (clean np terrain isrel p) = false.
 Proof. exact clean_single_bs. Qed.
 Print Assumptions C19_clean_single_bs.
 
@@ -37,38 +38,26 @@ Theorem C19_clean_no_leading_ws_prefixing : forall terrain isrel p,
 Proof. exact clean_no_leading_ws_prefixing. Qed.
 Print Assumptions C19_clean_no_leading_ws_prefixing.
 
-(* (b) canonical form, prefixing games (FO3, SK, SSE, FO4, FO76, SF), terrain or not *)
+(* (b) canonical form, prefixing games (FO3, SK, SSE, FO4, FO76, SF), terrain or not, every path *)
 Theorem C19_clean_canonical_prefixing : forall isrel,
   (forall q, has_fs q = false -> isrel q = true) ->
-  forall terrain p, mixed p = false ->
-  canonical true terrain isrel (clean true terrain isrel p) = true.
+  forall terrain p, canonical true terrain isrel (clean true terrain isrel p) = true.
 Proof. exact clean_canonical_prefixing. Qed.
 Print Assumptions C19_clean_canonical_prefixing.
 
-(* (a) idempotence, prefixing games, not terrain *)
+(* (a) idempotence, prefixing games, terrain or not, every path *)
 Theorem C19_clean_idem_prefixing : forall isrel,
   (forall q, has_fs q = false -> isrel q = true) ->
-  forall p, mixed p = false ->
-  clean true false isrel (clean true false isrel p) = clean true false isrel p.
+  forall terrain p,
+  clean true terrain isrel (clean true terrain isrel p) = clean true terrain isrel p.
 Proof. exact clean_idem_prefixing. Qed.
 Print Assumptions C19_clean_idem_prefixing.
-
-(* (a) idempotence, prefixing games, terrain: when the result reads Data\textures\<rest> with the
-   literal lower-case folder name and <rest> does not start with textures\ again *)
-Theorem C19_clean_idem_prefixing_terrain : forall isrel,
-  (forall q, has_fs q = false -> isrel q = true) ->
-  forall p, mixed p = false ->
-  firstn 9 (skipn 5 (clean true true isrel p)) = TEX ->
-  starts_ci TEX (skipn 14 (clean true true isrel p)) = false ->
-  clean true true isrel (clean true true isrel p) = clean true true isrel p.
-Proof. exact clean_idem_prefixing_terrain. Qed.
-Print Assumptions C19_clean_idem_prefixing_terrain.
 
 (* (a)+(b) OB / Special: idempotent and canonical exactly outside the two defect classes
    "result still contains \textures\" and "result starts with whitespace" *)
 Theorem C19_clean_ob_outside_defects : forall isrel,
   (forall q, has_fs q = false -> isrel q = true) ->
-  forall terrain p, mixed p = false ->
+  forall terrain p,
   hd_space (clean false terrain isrel p) = false ->
   contains_ci BTEX (clean false terrain isrel p) = false ->
   clean false terrain isrel (clean false terrain isrel p) = clean false terrain isrel p /\
@@ -76,60 +65,41 @@ Theorem C19_clean_ob_outside_defects : forall isrel,
 Proof. exact clean_ob_outside_defects. Qed.
 Print Assumptions C19_clean_ob_outside_defects.
 
-(* Refutations of the unconditional statements (POSIX is_relative); every witness is replayed on
-   the real code by tools/props/c19.py (list WITNESSES). *)
+(* Refutations of the unconditional statements for OB / Special (POSIX is_relative); every witness
+   is replayed on the real code by tools/props/c19.py (list WITNESSES). *)
 
-(* OB / Special: "a\textures\b\textures\c.dds" -> "b\textures\c.dds" -> "c.dds" *)
-Theorem C19_clean_idem_refuted_ob : exists p, mixed p = false /\
+(* "a\textures\b\textures\c.dds" -> "b\textures\c.dds" -> "c.dds" *)
+Theorem C19_clean_idem_refuted_ob : exists p,
   clean false false isrel_posix (clean false false isrel_posix p) <> clean false false isrel_posix p.
 Proof. exact clean_idem_refuted_ob. Qed.
 Print Assumptions C19_clean_idem_refuted_ob.
 
-Theorem C19_clean_canonical_refuted_ob : exists p, mixed p = false /\
+Theorem C19_clean_canonical_refuted_ob : exists p,
   canonical false false isrel_posix (clean false false isrel_posix p) = false.
 Proof. exact clean_canonical_refuted_ob. Qed.
 Print Assumptions C19_clean_canonical_refuted_ob.
 
-(* OB / Special terrain: "textures\a" -> "Data\textures\a" -> "Data\a" *)
-Theorem C19_clean_idem_refuted_ob_terrain : exists p, mixed p = false /\
+(* terrain: the same path -> "Data\b\textures\c.dds" -> "Data\c.dds" *)
+Theorem C19_clean_idem_refuted_ob_terrain : exists p,
   clean false true isrel_posix (clean false true isrel_posix p) <> clean false true isrel_posix p.
 Proof. exact clean_idem_refuted_ob_terrain. Qed.
 Print Assumptions C19_clean_idem_refuted_ob_terrain.
 
-(* OB / Special: "\ a" -> " a" -> "a": leading whitespace survives, not canonical, not idempotent *)
-Theorem C19_clean_canonical_refuted_ob_ws : exists p, mixed p = false /\
+(* "\ a" -> " a" -> "a": leading whitespace survives, not canonical, not idempotent *)
+Theorem C19_clean_canonical_refuted_ob_ws : exists p,
   hd_space (clean false false isrel_posix p) = true /\
   canonical false false isrel_posix (clean false false isrel_posix p) = false /\
   clean false false isrel_posix (clean false false isrel_posix p) <> clean false false isrel_posix p.
 Proof. exact clean_canonical_refuted_ob_ws. Qed.
 Print Assumptions C19_clean_canonical_refuted_ob_ws.
 
-(* OB / Special: a line terminator in front of \textures\ stops the search: "x<LF>\textures\a" stays *)
-Theorem C19_clean_canonical_refuted_ob_newline : exists p, mixed p = false /\
+(* a line terminator in front of \textures\ stops the search: "x<LF>\textures\a" stays *)
+Theorem C19_clean_canonical_refuted_ob_newline : exists p,
   canonical false false isrel_posix (clean false false isrel_posix p) = false.
 Proof. exact clean_canonical_refuted_ob_newline. Qed.
 Print Assumptions C19_clean_canonical_refuted_ob_newline.
 
-(* every configuration: "a/\b" -> "textures\a\\b" (double backslash) -> "textures\a\b" *)
-Theorem C19_clean_idem_refuted_mixed : exists p,
-  clean true false isrel_posix (clean true false isrel_posix p) <> clean true false isrel_posix p /\
-  canonical true false isrel_posix (clean true false isrel_posix p) = false.
-Proof. exact clean_idem_refuted_mixed. Qed.
-Print Assumptions C19_clean_idem_refuted_mixed.
-
-(* prefixing terrain: "textures\textures\x" -> "Data\textures\textures\x" -> "Data\textures\x" *)
-Theorem C19_clean_idem_refuted_terrain : exists p, mixed p = false /\
-  clean true true isrel_posix (clean true true isrel_posix p) <> clean true true isrel_posix p.
-Proof. exact clean_idem_refuted_terrain. Qed.
-Print Assumptions C19_clean_idem_refuted_terrain.
-
-(* prefixing terrain: "TEXTURES\a" -> "Data\TEXTURES\a" -> "Data\textures\a" *)
-Theorem C19_clean_idem_refuted_terrain_case : exists p, mixed p = false /\
-  clean true true isrel_posix (clean true true isrel_posix p) <> clean true true isrel_posix p.
-Proof. exact clean_idem_refuted_terrain_case. Qed.
-Print Assumptions C19_clean_idem_refuted_terrain_case.
-
-(* Non-vacuity: the hypotheses are satisfiable and the results non-trivial. *)
+(* Non-vacuity: the hypothesis is satisfiable and the results non-trivial. *)
 Example C19_isrel_posix_ok : forall q, has_fs q = false -> isrel_posix q = true.
 Proof. exact isrel_posix_ok. Qed.
 
@@ -137,26 +107,31 @@ Proof. exact isrel_posix_ok. Qed.
 Example C19_clean_example :
   let p := [32; 92; 68; 97; 116; 97; 92; 92; 84; 101; 120; 116; 117; 114; 101; 115; 47; 47;
             119; 104; 105; 116; 101; 46; 100; 100; 115; 13; 10; 32; 32] in
-  mixed p = false /\
   clean true false isrel_posix p =
     [116; 101; 120; 116; 117; 114; 101; 115; 92; 119; 104; 105; 116; 101; 46; 100; 100; 115] /\
-  canonical true false isrel_posix (clean true false isrel_posix p) = true /\
   clean true true isrel_posix p =
-    [68; 97; 116; 97; 92; 116; 101; 120; 116; 117; 114; 101; 115; 92; 119; 104; 105; 116; 101; 46; 100; 100; 115] /\
-  firstn 9 (skipn 5 (clean true true isrel_posix p)) = TEX /\
-  starts_ci TEX (skipn 14 (clean true true isrel_posix p)) = false.
+    [68; 97; 116; 97; 92; 116; 101; 120; 116; 117; 114; 101; 115; 92; 119; 104; 105; 116; 101; 46; 100; 100; 115].
+Proof. split; reflexivity. Qed.
+
+(* the inputs of the repaired defects: "a/\b" -> "textures\a\b";
+   terrain "Data\TEXTURES\a" and "Data\textures\textures\x" are left as they are *)
+Example C19_repaired_examples :
+  clean true false isrel_posix [97; 47; 92; 98] = [116; 101; 120; 116; 117; 114; 101; 115; 92; 97; 92; 98] /\
+  (let q := [68; 97; 116; 97; 92; 84; 69; 88; 84; 85; 82; 69; 83; 92; 97] in clean true true isrel_posix q = q) /\
+  (let q := [68; 97; 116; 97; 92; 116; 101; 120; 116; 117; 114; 101; 115; 92;
+             116; 101; 120; 116; 117; 114; 101; 115; 92; 120] in clean true true isrel_posix q = q).
 Proof. repeat split; reflexivity. Qed.
 
 (* OB: a clean result outside the defect classes *)
 Example C19_clean_ob_example :
   let p := [47; 97; 92; 116; 101; 120; 116; 117; 114; 101; 115; 92; 98; 46; 100; 100; 115] in
-  mixed p = false /\ clean false false isrel_posix p = [98; 46; 100; 100; 115] /\
+  clean false false isrel_posix p = [98; 46; 100; 100; 115] /\
   hd_space (clean false false isrel_posix p) = false /\
   contains_ci BTEX (clean false false isrel_posix p) = false.
 Proof. repeat split; reflexivity. Qed.
 
 (* MODEL ONLY: with a Windows-like is_relative (drive letters) the hypothesis on isrel fails and so
    does idempotence of the prefixing configuration *)
-Example C19_idem_needs_isrel_hypothesis : exists p, mixed p = false /\
+Example C19_idem_needs_isrel_hypothesis : exists p,
   clean true false isrel_drive (clean true false isrel_drive p) <> clean true false isrel_drive p.
 Proof. exact clean_idem_needs_isrel_hyp. Qed.
